@@ -40,6 +40,20 @@ def run():
         cases = strlit.load_cases(res.out_dir, chk.seed, keep)
     finally:
         tlc.cleanup(res)
+    # longer strings over the classes that decide the quoting (both triple-quote kinds in one value)
+    nq = 8 if chk.quick else 9
+    res = tlc.run_tlc("MC_StrLit", "StrLit_quotes.cfg", overrides={"N": nq, "Mode": "mc"}, timeout=3000)
+    chk.add_tlc(res, "mc StrLit_quotes N=%d over {nl, sq, dq, a} (RoundTrip, TripleIffMultiline)" % nq)
+    if not res.ok:
+        chk.spec_violation(res, "mc StrLit_quotes")
+    tlc.cleanup(res)
+    res = tlc.run_tlc("MC_StrLit", "StrLit_quotes.cfg", overrides={"N": nq, "Mode": "emit", "Stride": 16 if chk.quick else 8,
+                                                                   "Offset": chk.seed % 8}, timeout=3000)
+    chk.add_tlc(res, "emit StrLit_quotes N=%d" % nq)
+    try:
+        cases += strlit.load_cases(res.out_dir, chk.seed, 1)
+    finally:
+        tlc.cleanup(res)
     if not cases:
         raise MachineryError("no strings emitted")
     rng = random.Random(chk.seed)
@@ -72,7 +86,8 @@ def run():
             chk.count(1, r.get("value"))
             for m in r["mism"]:
                 chk.mismatch(m["clause"], {"clause": m["clause"], "ctx": m["ctx"], "fmt": m["fmt"]},
-                             {"kind": "string", "value": m["value"], "ctx": m["ctx"], "fmt": m["fmt"], "detail": m["detail"]},
+                             {"kind": "string", "value": m["value"], "ctx": m["ctx"], "fmt": m["fmt"], "enc": m.get("enc"),
+                              "path": m.get("path"), "detail": m["detail"]},
                              props=m["props"])
             if len(chk.cov["samples"]) < 6 and r.get("value") and len(r["value"]) > 5 and (len(chk.cov["samples"]) * 997 + len(r["value"])) % 3 == 0:
                 chk.sample({"value": r["value"], "context": r.get("ctx"), "formatter": job[2]})
@@ -83,7 +98,7 @@ def run():
                         "`black missing` is simulated by making its import fail, format-command = `cat`"]
     return chk.finish(
         rule="TLC proves WellFormed(Encode(s)) /\\ Lex(Encode(s)) = s for ALL strings up to length N over 11 character "
-             "classes (N = 4 quick, 6 thorough); every emitted abstract string (sampled 1/%d) is concretised, created "
+             "classes (N = 4 quick, 6 thorough) and up to length 8 / 9 over the four classes that decide the quoting; every emitted abstract string (sampled 1/%d) is concretised, created "
              "through the real tool in a seeded context (top level, list, dict value/key, tuple, `in`, snapshot()[k], "
              "nested) and read back with ast.literal_eval; plus the same as bytes and seeded random strings up to "
              "length 40 over all planes; distinct = distinct concrete values, every one is non-trivial" % keep)
@@ -93,7 +108,7 @@ def replay(chk):
     import json
     d = json.loads(open(chk.replay).read())["replay"]
     v = eval(d["value"])
-    out = strlit.run_batch(([{"value": v, "ctx": d["ctx"], "h": 0, "s": None}], 0, d["fmt"]))
+    out = strlit.run_batch(([{"value": v, "ctx": d["ctx"], "h": 0, "s": None, "enc": d.get("enc"), "path": d.get("path")}], 0, d["fmt"]))
     print(json.dumps(out, indent=1)[:3000])
     bad = any(r.get("mism") for r in out)
     print("reproduced" if bad else "not reproduced")
